@@ -79,8 +79,10 @@ class Sim:
             return True
         if name in ("ctn", "ctv"):
             return 0 <= a[0] <= self.cap
-        if name == "ctr":
+        if name in ("ctr", "ctf"):
             return a[0] <= self.cap
+        if name == "cta":
+            return 1 <= a[0] <= min(self.cap, 4)
         tg = a[0]
         x = v[tg]
         sz = len(x)
@@ -99,7 +101,7 @@ class Sim:
         elif name == "inn":
             if not (0 <= a[1] <= sz) or not (0 <= a[2] <= room): return False
             x[a[1]:a[1]] = [a[3]] * a[2]
-        elif name in ("irg", "mig"):
+        elif name in ("irg", "mig", "irf", "mif"):
             xs = a[3:3 + a[2]]
             if not (0 <= a[1] <= sz) or len(xs) > room: return False
             x[a[1]:a[1]] = xs
@@ -120,7 +122,7 @@ class Sim:
         elif name == "asn":
             if not (0 <= a[1] <= self.cap): return False
             v[tg] = [a[2]] * a[1]
-        elif name == "asr":
+        elif name in ("asr", "asf"):
             xs = a[2:2 + a[1]]
             if len(xs) > self.cap: return False
             v[tg] = list(xs)
@@ -128,7 +130,7 @@ class Sim:
             v[tg] = list(v[1 - tg])
         elif name == "mva":
             v[tg] = list(v[1 - tg]); v[1 - tg] = self.mark(v[1 - tg])
-        elif name == "mvc":
+        elif name in ("mvc", "kmc"):
             v[tg] = self.mark(x)
         elif name == "ivm":
             v[tg] = []
@@ -151,14 +153,15 @@ class Sim:
             xs = a[2:2 + a[1]]
             if len(xs) > self.cap: return False
             v[tg] = list(xs)
-        elif name == "eif":
+        elif name in ("eif", "fei"):
             v[tg] = [e for e in x if not pred(a[1], e)]
         elif name == "erv":
             v[tg] = [e for e in x if e != a[1]]
         return True
 
 
-COPY_OPS = ("pbc", "icr", "inn", "irg", "rsv", "asn", "asr", "cpa", "cpc", "sca", "tpc", "upc", "ivc", "sic", "sem", "sek", "fic", "fem", "fek", "iva", "isc", "ctv", "ctr")
+COPY_OPS = ("pbc", "icr", "inn", "irg", "rsv", "asn", "asr", "cpa", "cpc", "sca", "tpc", "upc", "ivc", "sic", "sem", "sek", "fic", "fem", "fek", "iva", "isc", "ctv", "ctr",
+            "irf", "asf", "ctf", "kcc")
 
 
 def allowed(family, op):
@@ -177,16 +180,19 @@ def single_ops(t, sz, cap, vals):
         ops += [f"icr {t} {pos} {x}", f"irv {t} {pos} {x}", f"emp {t} {pos} {x}", f"era {t} {pos}"]
         for n in range(0, room + 2):
             xs = (vals * 8)[:n]
-            ops += [f"inn {t} {pos} {n} {x}", f"irg {t} {pos} {L(xs)}", f"mig {t} {pos} {L(xs)}"]
+            ops += [f"inn {t} {pos} {n} {x}", f"irg {t} {pos} {L(xs)}", f"mig {t} {pos} {L(xs)}",
+                    f"irf {t} {pos} {L(xs)}", f"mif {t} {pos} {L(xs)}"]
         for l in range(pos, sz + 2):
             ops.append(f"err {t} {pos} {l}")
     ops.append(f"clr {t}")
     for n in range(0, cap + 2):
-        ops += [f"rsz {t} {n}", f"rsv {t} {n} {x}", f"asn {t} {n} {x}", f"asr {t} {L((vals * 8)[:n])}"]
+        ops += [f"rsz {t} {n}", f"rsv {t} {n} {x}", f"asn {t} {n} {x}", f"asr {t} {L((vals * 8)[:n])}", f"asf {t} {L((vals * 8)[:n])}"]
     ops += ["swp", f"cpa {t}", f"mva {t}", f"cpc {t}", f"mvc {t}", f"mrt {t}", f"sca {t}", f"sma {t}", f"ssw {t}"]
     if sz == 0:
         for n in range(0, cap + 2):
-            ops += [f"ctn {n}", f"ctv {n} {x}", f"ctr {L((vals * 8)[:n])}"]
+            ops += [f"ctn {n}", f"ctv {n} {x}", f"ctr {L((vals * 8)[:n])}", f"ctf {L((vals * 8)[:n])}"]
+            if 1 <= n <= min(cap, 4):
+                ops.append(f"cta {L((vals * 8)[:n])}")     # static_vector(c_array<T, n>&&): n <= Capacity is a constraint
     for pid in range(0, 5):
         ops.append(f"eif {t} {pid}")
     for v in vals[:2] + [-1]:
@@ -195,7 +201,7 @@ def single_ops(t, sz, cap, vals):
 
 
 HEAVY = ["swp", "ssw 0", "sma 0", "sca 0", "mva 0", "mva 1", "cpa 0", "mvc 0", "mrt 0", "emp 0 0 7", "irv 0 1 7", "era 0 0", "eif 0 0",
-         "rsz 0 1", "rsz 0 3", "pop 0", "clr 1", "inn 0 0 2 5", "mig 0 1 2 3 4", "pbr 1 9", "err 0 0 2"]
+         "rsz 0 1", "rsz 0 3", "pop 0", "clr 1", "inn 0 0 2 5", "mig 0 1 2 3 4", "pbr 1 9", "err 0 0 2", "mif 0 1 2 3 4", "irf 1 0 3 7 8 9"]
 
 IV_ALPHA = ["tpc 0 2", "tpr 0 3", "tpe 0 4", "upc 0 5", "upr 0 6", "upe 0 7", "pop 0", "clr 0", "ivc 0", "ivm 0", "tpr 1 6", "ivm 1", "ivc 1",
             "iva 0", "iva 1", "ivx 0", "ivx 1", "isc 0", "ism 0"]
@@ -212,7 +218,7 @@ OWN_KINDS = {
     "exp": ([0, 1], ["cm", "m", "c", "t"]),
     "fun": ([0, 1, 2], ["cm", "c"]),
 }
-OWN_COPY_OPS = ("vac", "vca", "vsc", "vcc", "vvc", "voc")
+OWN_COPY_OPS = ("vac", "vca", "vsc", "vcc", "vvc", "voc", "vnc", "vnl", "vrc")
 
 
 def own_both(family, ops):
@@ -239,13 +245,21 @@ def own_alphabet(kind, x):
         if kind == "var":
             for j in idx:
                 ops += [f"vem {t} {j} {x}", f"var {t} {j} {x}", f"vac {t} {j} {x}", f"vat {t} {j} {x}"]
+                if t == 0:
+                    ops.append(f"vsv 0 {j} {x}")
         elif kind == "opt":
             ops += [f"vem {t} 0 0", f"vem {t} 1 {x}", f"vav {t} 1 {x}", f"vav {t} 0 0", f"vat {t} 0 0", f"vat {t} 1 {x}",
-                    f"vvc {t} 1 {x}", f"vvm {t} 1 {x}", f"voc {t}", f"vom {t}"]
+                    f"vvc {t} 1 {x}", f"vvm {t} 1 {x}", f"voc {t}", f"vom {t}",
+                    f"vau {t} 1 {x}", f"vau {t} 0 0", f"vaw {t} 1 {x}", f"vaw {t} 0 0", f"vnd {t}", f"vne {t}"]
+            if t == 0:
+                ops += [f"vsv 0 1 {x}", "vsv 0 0 0", f"vsu 0 1 {x}", "vsu 0 0 0", f"vsr 0 1 {x}", "vsr 0 0 0"]
         elif kind == "exp":
-            ops += [f"vem {t} 0 {x}", f"vat {t} 0 {x}", f"vat {t} 1 {x}", f"vvc {t} 0 {x}", f"vvm {t} 0 {x}"]
+            ops += [f"vem {t} 0 {x}", f"vat {t} 0 {x}", f"vat {t} 1 {x}", f"vvc {t} 0 {x}", f"vvm {t} 0 {x}",
+                    f"vnc {t}", f"vnl {t}", f"vnm {t}", f"vrc {t}", f"vrm {t}"]
+            if t == 0:
+                ops += [f"vsv 0 0 {x}", f"vsv 0 1 {x}"]
         else:
-            ops += [f"fas {t} 1 {x}", f"fas {t} 2 {x}", f"fan {t}", f"fca {t}", f"fma {t}", f"fsc {t}", f"fsm {t}", f"fcc {t}", f"fmc {t}",
+            ops += [f"fas {t} 1 {x}", f"fas {t} 2 {x}", f"fac {t} 1 {x}", f"fac {t} 2 {x}", f"fan {t}", f"fca {t}", f"fma {t}", f"fsc {t}", f"fsm {t}", f"fcc {t}", f"fmc {t}",
                     f"fss {t}", f"fiv {t}", f"fxc {t}", f"fxm {t}"]
         if kind != "fun":
             ops += [f"vca {t}", f"vma {t}", f"vsc {t}", f"vsm {t}", f"vcc {t}", f"vmc {t}", f"vss {t}"]
@@ -304,13 +318,13 @@ def adapter_ops(kind, t, sz, xs):
     if kind == "sk":
         for x in xs:
             ops += [f"pbr {t} {x}", f"pbc {t} {x}", f"eb {t} {x}"]
-        return ops + [f"pop {t}"] + common
+        return ops + [f"pop {t}", f"kcc {t}", f"kmc {t}"] + common
     p = "s" if kind == "ss" else "f"
     for x in xs:
         ops += [f"{p}ir {t} {x}", f"{p}ic {t} {x}", f"{p}em {t} {x}", f"{p}ek {t} {x}"]
     ops.append(f"clr {t}")
     if kind == "fs":
-        ops += [f"fex {t}", f"frp {t} {L(sorted(set(xs))[:3])}", f"frp {t} 0"]
+        ops += [f"fex {t}", f"frp {t} {L(sorted(set(xs))[:3])}", f"frp {t} 0", f"fei {t} 0", f"fei {t} 1", f"fei {t} 3"]
     for pos in range(0, sz + 1):
         ops.append(f"era {t} {pos}")
         for l in range(pos, sz + 2):
@@ -360,7 +374,7 @@ def gen_adapters(tier, rng):
 
 # ---------------------------------------------------------------------------------------------
 # pair / tuple
-AGG_COPY = ("aca", "asc", "acc")
+AGG_COPY = ("aca", "asc", "acc", "ace", "acp", "aqa")
 
 
 def agg_both(fam, ops):
@@ -371,8 +385,10 @@ def agg_both(fam, ops):
 def gen_agg(tier, rng):
     quick = tier == "quick"
     out = []
-    alpha = [f"{o} {t}" for o in ("aca", "ama", "asc", "asm", "acc", "amc", "ass") for t in (0, 1)] + ["asw"]
+    alpha0 = [f"{o} {t}" for o in ("aca", "ama", "asc", "asm", "acc", "amc", "ass") for t in (0, 1)] + ["asw", "ace", "ame"]
     for kind in ("pr", "tp", "ar"):
+        # pair only: converting constructors / assignments from a pair<U0, U1>
+        alpha = alpha0 + (["acp", "amp", "aqa 0", "aqa 1", "aqm 0", "aqm 1"] if kind == "pr" else [])
         for fl in ("cm", "m", "c"):
             fam = f"{kind}_{fl}"
             al = [o for o in alpha if not (fl == "m" and o.split()[0] in AGG_COPY)]
@@ -390,8 +406,8 @@ def gen(tier, rng):
     out = []
     families_sv = ["sv_cm", "sv_m", "sv_c"]
     families_iv = ["iv_cm", "iv_m", "iv_c"]
-    # ---- exhaustive single operations from every small size state
-    for cap in [1, 2, 3] + ([] if quick else [4]):
+    # ---- exhaustive single operations from every small size state (capacity 0: the zero-size storage)
+    for cap in [0, 1, 2, 3] + ([] if quick else [4]):
         for n0 in range(0, cap + 1):
             for n1 in sorted({0, min(cap, 2)}):
                 setup = [f"eb 0 {(VALS * 8)[i]}" for i in range(n0)] + [f"eb 1 {(VALS * 8)[i] + 48}" for i in range(n1)]
@@ -415,12 +431,12 @@ def gen(tier, rng):
                     out += both(fam, cap, setup + [a, b_])
     # ---- inplace_vector: exhaustive short histories
     depth = 3 if quick else 4
-    for cap in [1, 3]:
+    for cap in [0, 1, 3]:
         for h in itertools.product(IV_ALPHA, repeat=depth):
             for fam in families_iv:
                 if not all(allowed(fam, o) for o in h):
                     continue
-                if quick and rng.random() < 0.93:
+                if quick and rng.random() < (0.985 if cap == 0 else 0.93):
                     continue
                 out += both(fam, cap, list(h))
     # ---- random capacity-aware histories
@@ -453,7 +469,10 @@ def gen(tier, rng):
                         f"asn {t} {rng.randint(0, min(cap, 6))} {x}", f"asr {t} {L([rng.choice(VALS) for _ in range(rng.randint(0, min(cap, 6)))])}",
                         "swp", f"cpa {t}", f"mva {t}", f"cpc {t}", f"mvc {t}", f"mrt {t}", f"eif {t} {rng.randint(0, 4)}",
                         f"erv {t} {rng.choice([x, -1])}", f"sca {t}", f"sma {t}", f"ssw {t}", f"emp {t} {pos} {x}", f"irv {t} {pos} {x}",
-                        f"ctn {rng.randint(0, cap)}", f"ctv {rng.randint(0, cap)} {x}", f"ctr {L([rng.choice(VALS) for _ in range(rng.randint(0, min(cap, 5)))])}"]
+                        f"ctn {rng.randint(0, cap)}", f"ctv {rng.randint(0, cap)} {x}", f"ctr {L([rng.choice(VALS) for _ in range(rng.randint(0, min(cap, 5)))])}",
+                        f"irf {t} {pos} {L(xs)}", f"mif {t} {pos} {L(xs)}", f"asf {t} {L([rng.choice(VALS) for _ in range(rng.randint(0, min(cap, 6)))])}",
+                        f"ctf {L([rng.choice(VALS) for _ in range(rng.randint(0, min(cap, 5)))])}",
+                        f"cta {L([rng.choice(VALS) for _ in range(rng.randint(1, min(cap, 4)))])}"]
             cand = [o for o in cand if allowed(fam, o)]
             rng.shuffle(cand)
             chosen = None
@@ -467,7 +486,7 @@ def gen(tier, rng):
                 if fam.startswith("iv"):
                     bad = [f"upr {t} {x}"] if room == 0 else ([f"pop {t}"] if sz == 0 else [])
                 else:
-                    bad = [f"pbr {t} {x}" if room == 0 else f"mig {t} 0 {L([x] * (room + 1))}", f"era {t} {sz}", f"irv {t} {sz + 1} {x}",
+                    bad = [f"pbr {t} {x}" if room == 0 else f"mig {t} 0 {L([x] * (room + 1))}", f"mif {t} 0 {L([x] * (room + 1))}", f"era {t} {sz}", f"irv {t} {sz + 1} {x}",
                            f"err {t} {min(sz, 1)} {sz + 1}", f"rsz {t} {cap + 1}", f"emp {t} {sz + 1} {x}"]
                 if bad:
                     chosen = rng.choice(bad)
@@ -477,10 +496,26 @@ def gen(tier, rng):
     out += gen_adapters(tier, rng)
     out += gen_own(tier, rng)
     out += gen_agg(tier, rng)
+    out += gen_pcopy()
+    return out
+
+
+def gen_pcopy():
+    """element type with a trivial default constructor / destructor / copy assignment and a user-provided copy constructor:
+    every (kind, capacity, size of the source, size of the target, operation)"""
+    out = []
+    for kind in ("iv", "sv"):
+        for cap in (1, 2, 3, 4):
+            for n in range(0, cap + 1):
+                for m in range(0, cap + 1):
+                    for what in ("cc", "mc", "ca", "ma"):
+                        out.append(f"pcopy {kind} {cap} {n} {m} {what}")
     return out
 
 
 def nontrivial(case, impl):
+    if case.startswith("pcopy"):
+        return "C:" in impl
     if case.split(" ", 1)[0] in ("hist", "ohist", "ahist", "rawhist", "orawhist", "arawhist"):
         return ("Cm" in impl) or ("Cc" in impl) or ("Am" in impl) or ("Ac" in impl)
     return "self 1" in impl or "alive 0" in impl
